@@ -180,22 +180,25 @@ func (c *Ctx) ruleObjectRules(rule string) {
 		}
 		k := key(rule, fk, "undeclared keys rejected")
 		ok := false
-		for _, b := range fn.Blocks {
-			for _, in := range b.Instrs {
-				lk, isLk := in.(*ssa.Lookup)
-				if !isLk || !lk.CommaOk || !strings.HasSuffix(c.M.ValPath(lk.X), ".PropertiesValue") || !blockInLoop(b) {
-					continue
-				}
-				// the not-found edge rejects
-				for _, r := range *lk.Referrers() {
-					e, isE := r.(*ssa.Extract)
-					if !isE || e.Index != 1 {
+		// the function, or a phase of it: a method of the same receiver that it calls and whose error it hands on
+		for _, g := range c.phasesOf(fn) {
+			for _, b := range g.Blocks {
+				for _, in := range b.Instrs {
+					lk, isLk := in.(*ssa.Lookup)
+					if !isLk || !lk.CommaOk || !strings.HasSuffix(c.M.ValPath(lk.X), ".PropertiesValue") || !blockInLoop(b) {
 						continue
 					}
-					for _, r2 := range *e.Referrers() {
-						if ifi, isIf := r2.(*ssa.If); isIf {
-							if c.edgeRejectsIdx(fn, ifi.Block(), 1) {
-								ok = true
+					// the not-found edge rejects
+					for _, r := range *lk.Referrers() {
+						e, isE := r.(*ssa.Extract)
+						if !isE || e.Index != 1 {
+							continue
+						}
+						for _, r2 := range *e.Referrers() {
+							if ifi, isIf := r2.(*ssa.If); isIf {
+								if c.edgeRejectsIdx(g, ifi.Block(), 1) {
+									ok = true
+								}
 							}
 						}
 					}
@@ -211,17 +214,19 @@ func (c *Ctx) ruleObjectRules(rule string) {
 	if fn := c.fn(rule, "schema.ObjectSchema.convertData"); fn != nil {
 		k := key(rule, "schema.ObjectSchema.convertData", "non-string keys rejected")
 		ok := false
-		for _, b := range fn.Blocks {
-			for _, in := range b.Instrs {
-				ta, isTA := in.(*ssa.TypeAssert)
-				if !isTA || !ta.CommaOk || typeStr(ta.AssertedType) != "string" || !blockInLoop(b) {
-					continue
-				}
-				for _, r := range *ta.Referrers() {
-					if e, isE := r.(*ssa.Extract); isE && e.Index == 1 {
-						for _, r2 := range *e.Referrers() {
-							if ifi, isIf := r2.(*ssa.If); isIf && c.edgeRejectsIdx(fn, ifi.Block(), 1) {
-								ok = true
+		for _, g := range c.phasesOf(fn) {
+			for _, b := range g.Blocks {
+				for _, in := range b.Instrs {
+					ta, isTA := in.(*ssa.TypeAssert)
+					if !isTA || !ta.CommaOk || typeStr(ta.AssertedType) != "string" || !blockInLoop(b) {
+						continue
+					}
+					for _, r := range *ta.Referrers() {
+						if e, isE := r.(*ssa.Extract); isE && e.Index == 1 {
+							for _, r2 := range *e.Referrers() {
+								if ifi, isIf := r2.(*ssa.If); isIf && c.edgeRejectsIdx(g, ifi.Block(), 1) {
+									ok = true
+								}
 							}
 						}
 					}
@@ -1193,4 +1198,75 @@ func mustHoldGen(fn *ssa.Function, est func(core.Cond) bool, gen func(*ssa.Basic
 		in[keys[i]] = in[e[0]] || gen(e[0]) || edge(e[0], e[1])
 	}
 	return in
+}
+
+// phasesOf: fn and the phases it is split into - unexported methods that fn calls on its own receiver, that return an
+// error, and whose non-nil error makes fn return a non-nil error at once (`if err := o.phase(..); err != nil { return
+// .., err }`, or `return o.phase(..)`).
+func (c *Ctx) phasesOf(fn *ssa.Function) []*ssa.Function {
+	out := []*ssa.Function{fn}
+	if fn.Signature.Recv() == nil || len(fn.Params) == 0 {
+		return out
+	}
+	for _, b := range fn.Blocks {
+		for _, in := range b.Instrs {
+			call, ok := in.(*ssa.Call)
+			if !ok {
+				continue
+			}
+			g := core.StaticBody(&call.Call)
+			if g == nil || g == fn || g.Signature.Recv() == nil || token.IsExported(g.Name()) || len(call.Call.Args) == 0 ||
+				call.Call.Args[0] != ssa.Value(fn.Params[0]) || len(core.PlainSites(g)) == 0 {
+				continue
+			}
+			ei := core.ErrorResultIndex(g.Signature)
+			if ei < 0 {
+				continue
+			}
+			// the error of the phase: the call itself or the extract of that result
+			var errv ssa.Value = call
+			if g.Signature.Results().Len() > 1 {
+				errv = nil
+				for _, r := range *call.Referrers() {
+					if ex, isEx := r.(*ssa.Extract); isEx && ex.Index == ei {
+						errv = ex
+					}
+				}
+			}
+			if errv == nil || errv.Referrers() == nil {
+				continue
+			}
+			handsOn := false
+			for _, r := range *errv.Referrers() {
+				switch x := r.(type) {
+				case *ssa.Return:
+					handsOn = true
+				case *ssa.BinOp:
+					if _, neq, isNil := core.NilCmp(x); isNil {
+						if ifi, isIf := x.Block().Instrs[len(x.Block().Instrs)-1].(*ssa.If); isIf && ifi.Cond == ssa.Value(x) {
+							idx := 0
+							if !neq {
+								idx = 1
+							}
+							if c.edgeRejectsIdx(fn, x.Block(), idx) {
+								handsOn = true
+							}
+						}
+					}
+				}
+			}
+			if handsOn {
+				dup := false
+				for _, o := range out {
+					if o == g {
+						dup = true
+					}
+				}
+				if !dup {
+					out = append(out, g)
+				}
+			}
+		}
+	}
+	return out
 }
